@@ -299,6 +299,13 @@ theorem connection_book_is_truth (r : Rules) (venues : Nat → Venue) (c : Conn)
     intro x hx hsome
     exact hg x (by simp [hx]) (by rw [← hsub]; exact hsome)
 
+/-- a freshly initialised connection (distinct instrument keys, every
+snapshot strictly ordered and genuine for its instrument's venue) satisfies the invariant -/
+theorem connection_start (venues : Nat → Venue) (insts : List (Nat × Nat × OrderBook))
+    (hkey : (insts.map (·.2.1)).Nodup)
+    (h : ∀ x ∈ insts, SortedBook x.2.2 ∧ GenuineSnapshot (venues x.1) x.2.2.sequence x.2.2) :
+    ConnSynced venues (Conn.start insts) := connSynced_start venues insts hkey h
+
 /-- **stream_view** — the per-message view of the connection (`Conn.step`: stop reading at the
 terminal error) is the whole output list of the transformer pushed through
 `with_termination_on_error` (`terminate`, a `map_while`) and applied by the consumer. -/
@@ -346,6 +353,17 @@ example : SortedBook exSnapshot := ⟨by decide, by decide⟩
 example : GenuineSnapshot exVenue 1 exSnapshot := by
   refine ⟨rfl, ?_, ?_⟩ <;> funext p <;>
     simp [exSnapshot, exVenue, abs, bookAt, changesUpTo, applyLevels, setLevel] <;> grind
+
+/-- two instruments (subscriptions 0 and 1, keys 10 and 11) on one connection -/
+example : ConnSynced (fun _ => exVenue) (Conn.start [(0, 10, exSnapshot), (1, 11, exSnapshot)]) := by
+  apply connection_start
+  · decide
+  · intro x hx
+    have hsnap : GenuineSnapshot exVenue 1 exSnapshot := by
+      refine ⟨rfl, ?_, ?_⟩ <;> funext p <;>
+        simp [exSnapshot, exVenue, abs, bookAt, changesUpTo, applyLevels, setLevel] <;> grind
+    simp only [List.mem_cons, List.not_mem_nil, or_false] at hx
+    rcases hx with hx | hx <;> subst hx <;> exact ⟨⟨by decide, by decide⟩, hsnap⟩
 
 /-- the in-order delivery is admitted entirely (both rule sets) … -/
 example : (Local.run .spot (start 1 exSnapshot) [exM1, exM2]).2 = none := by decide
